@@ -146,6 +146,33 @@ def conformance(co, scfg, seq):
         if li:
             first_of[b.name] = li[0]
             last_of[b.name] = li[-1]
+    # an EXTENDED_ARG prefix is part of the instruction it extends (3.11 reports
+    # the prefixed instruction at the offset of its prefix)
+    real = {}
+    pending = []
+    for o in offs:
+        pending.append(o)
+        if opn[o] != "EXTENDED_ARG":
+            for p in pending:
+                real[p] = o
+            pending = []
+    seq2 = []
+    prev_was_prefix = False
+    for raw in seq:
+        o = real.get(raw, raw)
+        if not (prev_was_prefix and seq2 and seq2[-1] == o):
+            seq2.append(o)
+        prev_was_prefix = opn.get(raw) == "EXTENDED_ARG"
+    seq = seq2
+    roffs = [o for o in offs if opn[o] != "EXTENDED_ARG"]
+    nxt = {a: b for a, b in zip(roffs, roffs[1:])}
+    for b in blocks:
+        li = [o for o in roffs if b.begin <= o < b.end]
+        if li:
+            last_of[b.name] = li[-1]
+    # a block may *begin* with an EXTENDED_ARG prefix: its first real instruction
+    first_real = {b.name: real.get(first_of[b.name], first_of[b.name]) for b in blocks
+                  if b.name in first_of}
     edges = set()
     for x, y in zip(seq, seq[1:]):
         if x not in blk_of or y not in blk_of:
@@ -161,7 +188,7 @@ def conformance(co, scfg, seq):
         cands = [scfg.graph[t] for t in scfg.graph[bx]._jump_targets]
         ok = False
         for c in cands:
-            f = first_of[c.name]
+            f = first_real[c.name]
             if yy == f:
                 ok = True
             elif opn.get(f) == "END_FOR" and nxt.get(f) == yy and opn[x] == "FOR_ITER":
@@ -173,7 +200,7 @@ def conformance(co, scfg, seq):
                 raise Inconclusive("trace_contradicts_dis_ground_truth", (x, opn[x], y, want))
             raise Viol("C09", "executed_transfer_is_not_an_edge",
                        {"from": f"{x}:{opn[x]}", "to": y, "block": bx,
-                        "successors": [first_of[c.name] for c in cands]})
+                        "successors": [first_real[c.name] for c in cands]})
         edges.add((bx, by))
     return edges
 
